@@ -193,8 +193,10 @@ def make_inclass_cases(seed, n, start=0, knobs=None):
     while len(cases) < n and attempts < n * 20:
         attempts += 1
         rng = random.Random("inclass-%d-%d" % (seed, i))
+        # every 3rd / 4th case focuses on observer positions / error-handler lookup (see gen.Knobs.flavour)
+        kn = knobs or gen.Knobs(flavour={2: "observers", 3: "errors"}.get(i % 4))
         i += 1
-        spec = gen.gen_inclass(rng, knobs)
+        spec = gen.gen_inclass(rng, kn)
         ok, problems, clause = gen.certificate(spec)
         if not ok:
             raise vlib.HarnessError("in-class generator self-check failed: %s" % problems[:3])
